@@ -4,8 +4,11 @@
    /repo/p2p/netutil DistinctNetSet.  [reachable t]: t is the table after some history of
    handleAddNode / deleteNode / revalidation responses / handleTrackRequest / initDone
    operations (any length, any arguments, node ids 256-bit: [wf_op]) applied to newTable.
-   Subnets are the table's own notion: the top 24 bits of the address in the form the node
-   stores it (an IPv4-mapped IPv6 address is a 16-byte address), LAN addresses exempt. *)
+   Subnets are real networks: [net_key] is the /24 of the IPv4 address for 4-byte AND for
+   IPv4-mapped 16-byte addresses (C46_mapped_same_subnet), the top 24 bits for other IPv6
+   addresses; LAN addresses are exempt.  The keying of the code before the repair
+   "p2p/netutil: count IPv4-mapped IPv6 addresses in their IPv4 subnet" is kept as
+   [net_key_stored] for C46_stored_form_keying_refuted only. *)
 From GV Require Import Lib.Tactics Net.Table Net.TableProofs.
 From Coq Require Import Sorted.
 Local Open Scope N_scope.
@@ -48,7 +51,14 @@ Theorem C46_distinct_ids : forall t, reachable t ->
 Proof. intros t H. exact (inv_distinct_ids t (reachable_inv t H)). Qed.
 Print Assumptions C46_distinct_ids.
 
-(* at most 2 tracked nodes (entries and replacements) per /24 per bucket, 10 per /24 table-wide *)
+(* plain and IPv4-mapped forms of the same /24 have the same subnet key, so the limits below
+   count them together *)
+Theorem C46_mapped_same_subnet : forall a,
+  a < 2 ^ 32 -> net_key (IP6 (65535 * 2 ^ 32 + a)) = net_key (IP4 a).
+Proof. exact net_key_mapped. Qed.
+Print Assumptions C46_mapped_same_subnet.
+
+(* at most 2 tracked nodes (entries and replacements) per real /24 per bucket, 10 table-wide *)
 Theorem C46_subnet_limits_hold : forall t, reachable t ->
   (forall b k, In b (buckets t) -> subnet_count k (entries b ++ repl b) <= 2) /\
   (forall k, subnet_count k (flat_map (fun b => entries b ++ repl b) (buckets t)) <= 10).
@@ -100,7 +110,28 @@ Proof.
 Qed.
 Print Assumptions C46_closest_sorted_complete.
 
-(* non-vacuity: a concrete history (three nodes of 8.8.1.0/24 and an IPv4-mapped one in the
+(* documentation of the repaired defect: under the stored-form keying the same model admits a
+   history after which one bucket tracks 4 nodes of the real network 8.8.1.0/24 (two plain, two
+   IPv4-mapped); full statement that is FALSE for that keying: C46_subnet_limits_hold *)
+Theorem C46_stored_form_keying_refuted :
+  let id i := 2 ^ 255 + i in
+  let ops := [ OAdd (mkRec (id 1) (IP4 134742273) 30303 0) 1 false false;
+               OAdd (mkRec (id 2) (IP4 134742274) 30303 0) 2 false false;
+               OAdd (mkRec (id 4) (IP6 281470816485636) 30303 0) 3 false false;
+               OAdd (mkRec (id 5) (IP6 281470816485637) 30303 0) 4 false false ] in
+  Forall wf_op ops /\
+  exists t, @run net_key_stored (new_table 0) ops = Some t /\
+  exists b, In b (buckets t) /\
+    subnet_count (net_key (IP4 134742273)) (entries b ++ repl b) = 4.
+Proof.
+  split.
+  - repeat (constructor; [apply N.ltb_lt; vm_compute; reflexivity|]). constructor.
+  - eexists. split; [vm_compute; reflexivity|]. eexists. split; [do 16 right; left; reflexivity|].
+    vm_compute. reflexivity.
+Qed.
+Print Assumptions C46_stored_form_keying_refuted.
+
+(* non-vacuity: a concrete history (three nodes of 8.8.1.0/24 and an IPv4-mapped 8.8.2.5 in the
    farthest bucket: the third is refused by the bucket limit; a revalidation; a removal)
    runs without panic, and findnode returns the two nearest entries in order *)
 Example C46_nonvacuous :
@@ -109,7 +140,7 @@ Example C46_nonvacuous :
                OAdd (mkRec (id 1) (IP4 134742273) 30303 0) 1 false false;
                OAdd (mkRec (id 2) (IP4 134742274) 30303 0) 2 true false;
                OAdd (mkRec (id 3) (IP4 134742275) 30303 0) 3 false false;
-               OAdd (mkRec (id 7) (IP6 281470816487685) 30303 0) 4 false true;
+               OAdd (mkRec (id 7) (IP6 281470816485893) 30303 0) 4 false true;
                OReval 2 true None 0;
                ODelete (id 1) 0 ] in
   Forall wf_op ops /\
